@@ -1,7 +1,7 @@
 (* C10 -- estimates ignore sample order, conditioning-column order and X/Y roles. *)
 From Coq Require Import List ZArith QArith Reals Permutation.
-From CE Require Import Model.Itv Model.KnnCounts Model.Kde Model.PoissonMI
-     Proofs.KnnInvProofs Proofs.KdeInvProofs Proofs.PoissonMIProofs.
+From CE Require Import Model.Itv Model.KnnCounts Model.Kde Model.PoissonMI Model.PoissonCMI Model.Poisson
+     Proofs.KnnInvProofs Proofs.KdeInvProofs Proofs.PoissonMIProofs Proofs.PoissonCMIProofs Proofs.PoissonCMIValues.
 Import ListNotations.
 Close Scope Q_scope.
 
@@ -75,3 +75,94 @@ Print Assumptions C10_poisson_unconditional_ignores_variable_order.
 Theorem C10_exchanging_X_and_Y_blocks_is_a_variable_reordering : forall kx ky, perm_of (kx + ky) (block_swap kx ky).
 Proof. exact block_swap_perm. Qed.
 Print Assumptions C10_exchanging_X_and_Y_blocks_is_a_variable_reordering.
+
+(* ---- Poisson, CONDITIONAL path (Model/PoissonCMI.v: the `else:` branch of poisson_conditional_mutual_information, arrays with shapes,
+   aliasing, fill_diagonal's flat value, element-wise fancy indexing and poisson_joint_entropy on non-square arrays reproduced).
+   pcmi_terms = the signed arguments handed to poisson_entropy + the entropy-free remainder; pcmi_est h = their signed sum for an
+   arbitrary entropy function h; None = the code raises ValueError.  S is the matrix np.corrcoef returned (data). ---- *)
+
+(* the code raises exactly when X and Y have different numbers of columns *)
+Theorem C10_poisson_conditional_rejects_unequal_XY_widths : forall kx ky kz S, pcmi_terms kx ky kz S = None <-> kx <> ky.
+Proof. exact pcmi_raises. Qed.
+Print Assumptions C10_poisson_conditional_rejects_unequal_XY_widths.
+
+(* the estimate depends on the sample only through the (k_x+k_y+k_z)^2 entries of its correlation matrix ... *)
+Theorem C10_poisson_conditional_depends_on_the_sample_only_through_its_correlation_matrix :
+  forall h, (forall a b, (a == b)%Q -> (h a == h b)%Q) -> forall kx ky kz S S', (1 <= kx)%nat -> (1 <= ky)%nat -> (1 <= kz)%nat ->
+  (forall i j, (i < kx + ky + kz)%nat -> (j < kx + ky + kz)%nat -> (at_ S' i j == at_ S i j)%Q) ->
+  oQeq (pcmi_est h kx ky kz S') (pcmi_est h kx ky kz S).
+Proof. exact pcmi_ext. Qed.
+Print Assumptions C10_poisson_conditional_depends_on_the_sample_only_through_its_correlation_matrix.
+
+(* ... so it ignores the order of the rows whenever the correlation oracle does (np.corrcoef: row sums) *)
+Theorem C10_poisson_conditional_row_order_inherited_from_the_correlation_matrix :
+  forall h, (forall a b, (a == b)%Q -> (h a == h b)%Q) -> forall (sample : Type) (corr : sample -> arr) (reordered : sample -> sample -> Prop),
+  (forall a b, reordered a b -> forall i j, (at_ (corr b) i j == at_ (corr a) i j)%Q) ->
+  forall kx ky kz a b, (1 <= kx)%nat -> (1 <= ky)%nat -> (1 <= kz)%nat -> reordered a b ->
+  oQeq (pcmi_est h kx ky kz (corr b)) (pcmi_est h kx ky kz (corr a)).
+Proof. exact pcmi_row_order. Qed.
+Print Assumptions C10_poisson_conditional_row_order_inherited_from_the_correlation_matrix.
+
+(* what the branch computes, for every entropy function and all sizes k = k_x = k_y >= 1, k_z >= 1:
+   sum_i h|d_i| - h|d_0| - h|d_k| + h|d_2k| + sum_{p=1..k_z-1} d_{2k+p} + sum_{i<j} r_ij + sum_{i<j<k} (r_{i,k+j} + r_{k+i,j}),
+   d_i = r_ii - r_0i (i > 0) + (r_{i,k+i} | r_{i,i-k} | nothing) for an X | Y | Z column *)
+Theorem C10_poisson_conditional_closed_form : forall h, (forall a b, (a == b)%Q -> (h a == h b)%Q) -> forall k kz S, (1 <= k)%nat -> (1 <= kz)%nat ->
+  oQeq (pcmi_est h k k kz S) (Some (pcmi_closed h k kz (dS k kz S) S)) /\
+  forall i, (i < k + k + kz)%nat -> (dS k kz S i == dform k S i)%Q.
+Proof. exact pcmi_closed_form. Qed.
+Print Assumptions C10_poisson_conditional_closed_form.
+
+(* what IS invariant, for every symmetric matrix, entropy function and size: re-orderings that keep the first X, first Y and first Z column
+   in place, move X and Y columns together and map every block to itself (compat) -- in particular every re-ordering of Z's columns
+   that fixes the first one *)
+Theorem C10_poisson_conditional_invariant_when_first_columns_stay_and_XY_move_together :
+  forall h, (forall a b, (a == b)%Q -> (h a == h b)%Q) -> forall k kz S s, (1 <= k)%nat -> (1 <= kz)%nat ->
+  (forall i j, (at_ S i j == at_ S j i)%Q) -> compat k kz s ->
+  oQeq (pcmi_est h k k kz (reindex s S)) (pcmi_est h k k kz S).
+Proof. exact pcmi_reindex_invariant. Qed.
+Print Assumptions C10_poisson_conditional_invariant_when_first_columns_stay_and_XY_move_together.
+
+(* known finding K2a, formally: there is a correlation matrix of a count sample (8 rows; k_x = k_y = 1, k_z = 2) on which the call with X and Y
+   exchanged hands a different multiset of signed arguments to poisson_entropy, and the VALUE moves by more than 3/4 for every real entropy
+   function within 1e-9 of the certified Poisson entropies at the two rates involved (near_certified; next theorem but one) *)
+Theorem C10_poisson_conditional_swap_refuted : exists M kx ky kz t t',
+  is_corr_of witness_sample M (kx + ky + kz)%nat = true /\ sym_unit M (kx + ky + kz)%nat = true /\
+  pcmi_terms kx ky kz (of_lists M) = Some t /\ pcmi_terms ky kx kz (reindex (swap_xyz kx ky) (of_lists M)) = Some t' /\
+  (exists x, count_sr x (fst t) <> count_sr x (fst t')) /\
+  forall hR, near_certified hR -> (pcmi_valueR hR t + 3 / 4 < pcmi_valueR hR t')%R.
+Proof. exact swap_refuted. Qed.
+Print Assumptions C10_poisson_conditional_swap_refuted.
+
+(* known finding K2b, formally: ... on which exchanging Z's two columns does; the value moves by more than 1/10 *)
+Theorem C10_poisson_conditional_zorder_refuted : exists M kx ky kz tau t t',
+  is_corr_of witness_sample M (kx + ky + kz)%nat = true /\ sym_unit M (kx + ky + kz)%nat = true /\ Permutation tau (seq 0%nat kz) /\
+  pcmi_terms kx ky kz (of_lists M) = Some t /\ pcmi_terms kx ky kz (reindex (zcols kx ky tau) (of_lists M)) = Some t' /\
+  (exists x, count_sr x (fst t) <> count_sr x (fst t')) /\
+  forall hR, near_certified hR -> (pcmi_valueR hR t' + 1 / 10 < pcmi_valueR hR t)%R.
+Proof. exact zorder_refuted. Qed.
+Print Assumptions C10_poisson_conditional_zorder_refuted.
+
+(* the Poisson entropy IS near_certified: the two in-kernel certificates; by C13_complete_accuracy_certificate each says that every partial
+   sum of the entropy series from 30 terms on is within 1e-9 of h_half resp. h_one (composed statements:
+   Proofs/PoissonCMISeries.v swap_values_differ_for_the_poisson_entropy_series, zorder_..., checked when the development is built) *)
+Theorem C10_poisson_entropies_of_the_witness_rates_are_certified :
+  check_entropy_full_case (1, 2, 30%nat, Qnum h_half, Zpos (Qden h_half))%Z = true /\
+  check_entropy_full_case (1, 1, 30%nat, Qnum h_one, Zpos (Qden h_one))%Z = true.
+Proof. exact witness_certificates. Qed.
+Print Assumptions C10_poisson_entropies_of_the_witness_rates_are_certified.
+
+(* the same two refutations without real numbers (axiom-free): the multisets of signed arguments differ; for Z's columns also the
+   entropy-free remainder *)
+Theorem C10_poisson_conditional_swap_changes_the_entropy_arguments : exists M kx ky kz t t',
+  is_corr_of witness_sample M (kx + ky + kz)%nat = true /\ sym_unit M (kx + ky + kz)%nat = true /\
+  pcmi_terms kx ky kz (of_lists M) = Some t /\ pcmi_terms ky kx kz (reindex (swap_xyz kx ky) (of_lists M)) = Some t' /\
+  exists x, count_sr x (fst t) <> count_sr x (fst t').
+Proof. exact swap_rates_differ. Qed.
+Print Assumptions C10_poisson_conditional_swap_changes_the_entropy_arguments.
+
+Theorem C10_poisson_conditional_zorder_changes_the_entropy_arguments : exists M kx ky kz tau t t',
+  is_corr_of witness_sample M (kx + ky + kz)%nat = true /\ sym_unit M (kx + ky + kz)%nat = true /\ Permutation tau (seq 0%nat kz) /\
+  pcmi_terms kx ky kz (of_lists M) = Some t /\ pcmi_terms kx ky kz (reindex (zcols kx ky tau) (of_lists M)) = Some t' /\
+  (exists x, count_sr x (fst t) <> count_sr x (fst t')) /\ ~ (snd t == snd t')%Q.
+Proof. exact zorder_rates_differ. Qed.
+Print Assumptions C10_poisson_conditional_zorder_changes_the_entropy_arguments.
